@@ -407,6 +407,8 @@ def fam_close(rnd, i):
     steps.append(call(w, "add", ("d1",), rnd.choice(SPELLINGS), rnd))
     if rnd.random() < 0.5:
         steps.append(call(w, "add", ("d1", "n1"), rnd.choice(SPELLINGS), rnd))
+    if rnd.random() < 0.3:
+        steps.append({"s": "spawn"})        # a child process started now must not inherit the notification descriptor
     pos = rnd.choice(["idle", "pending", "pending", "burst", "buffered", "after_drain"])
     f = FS()
     f.add(("d1",), "dir")
@@ -564,6 +566,7 @@ def fam_newclose(rnd, i, n=200):
     if rnd.random() < 0.5:
         body.insert(4, recv(w))
     steps.append({"s": "loop", "n": n, "body": body})
+    steps += [new(w, 0), call(w, "add", ("d1",), "rel"), {"s": "spawn"}, call(w, "close"), drain(w)]
     steps.append(obs(w))
     fail = {"s": "new", "w": "w2", "cap": 0, "nofile": 1}
     steps += [fail, fail, {"s": "new", "w": "w3"}, obs("w3"), call("w3", "close"), drain("w3"), obs("w3")]
@@ -745,6 +748,83 @@ def fam_dselfskip(rnd, i):
     else:
         steps += [call(w, "add", ("d1", "n1"), sp), call(w, "add", ("d1",), sp), drain(w), fs("rename", ("d1", "n2"), to=("d1", "n1")), drain(w)]
     steps += [call(w, "watchlist"), obs(w)]
+    steps += epilogue(w)
+    return steps
+
+
+def fam_heldparent(rnd, i):
+    """A file and its directory watched by one Watcher; the file's inode outlives its name (a descriptor held open, or
+    a second hard link in or outside the directory) while the name is created again: the Remove of the old incarnation
+    comes from the directory at unlink time, before the Create of the new one; the end of the inode later reports
+    nothing more, and the next removal of the name is reported again."""
+    w = "w1"
+    p, d = ("d1", "n1"), ("d1",)
+    sp = rnd.choice(["rel", "abs"])
+    steps = [fs("mkdir", d), fs("mkdir", ("u",)), fs("create", p), new(w, rnd.choice([0, 0, 1, 64]))]
+    adds = [call(w, "add", d, sp), call(w, "add", p, sp)]
+    rnd.shuffle(adds)
+    steps += adds + [drain(w)]
+    how = rnd.choice(["fd", "fd", "link_out", "link_in"])
+    h = ("u", "h") if how == "link_out" else ("d1", "h")
+    steps.append(fs("open", p, fd="f1") if how == "fd" else fs("link", p, to=h))
+    pace = rnd.choice(["each", "end", "end"])
+    body = [fs("unlink", p), fs("create", p), fs("write", p)]
+    if rnd.random() < 0.4:
+        body.append(call(w, "add", p, sp))
+    body.append(fs("closefd", (), fd="f1") if how == "fd" else fs("unlink", h))
+    body += [fs("chmod", p), fs("unlink", p)]
+    if rnd.random() < 0.5:
+        body += [fs("create", p), fs("unlink", p)]
+    for st in body:
+        steps.append(st)
+        if pace == "each":
+            steps.append(drain(w))
+    steps += [drain(w), call(w, "watchlist"), obs(w)]
+    steps += epilogue(w)
+    return steps
+
+
+def fam_reops(rnd, i):
+    """The same path added several times with different withOps filters: the watch reports the union of what was asked
+    for (the kernel mask is added to, never replaced), and it still ends when the path is renamed or deleted if any of
+    the Adds asked for Rename / Remove."""
+    w = "w1"
+    isdir = rnd.random() < 0.4
+    p = ("d1",) if isdir else ("d1", "n1")
+    ALL = 0x1f
+    narrow = [2, 16, 2 | 16, 1, 4, 8, 2 | 4, 16 | 8]
+    shape = rnd.choice(["narrow_all_narrow", "narrow_all_narrow", "all_narrow", "narrow_narrow_all", "random"])
+    if shape == "narrow_all_narrow":
+        seq = [rnd.choice(narrow), ALL, rnd.choice(narrow)]
+    elif shape == "all_narrow":
+        seq = [ALL, rnd.choice(narrow), rnd.choice(narrow)]
+    elif shape == "narrow_narrow_all":
+        seq = [rnd.choice(narrow), rnd.choice(narrow), ALL]
+    else:
+        seq = [rnd.randrange(1, 32) for _ in range(rnd.randint(2, 4))]
+    steps = [fs("mkdir", ("d1",)), fs("mkdir", ("u",)), fs("create", ("d1", "n1")), new(w, rnd.choice([0, 0, 4]))]
+    sp = rnd.choice(["rel", "abs"])
+    for k, o in enumerate(seq):
+        steps.append(call(w, "add", p, sp, ops=o) if o != ALL or rnd.random() < 0.5 else call(w, "add", p, sp))
+        if rnd.random() < 0.3:
+            steps += [fs("chmod", p), drain(w)]
+    steps.append(obs(w))
+    inner = ("d1", "n1")
+    act = [fs("write", inner), fs("chmod", inner), fs("chmod", p)]
+    rnd.shuffle(act)
+    steps += act[:rnd.randint(1, 3)] + [drain(w)]
+    moved = ("u", "m")
+    end = rnd.choice(["rename", "rename", "delete"])
+    if end == "rename":
+        steps += [fs("rename", p, to=moved), drain(w)]
+        steps += [fs("write", moved + ("n1",) if isdir else moved), drain(w)]
+        steps += [fs("mkdir", p), fs("create", inner)] if isdir else [fs("create", p)]
+        steps += [fs("write", inner), drain(w)]
+    else:
+        steps += ([fs("unlink", inner), fs("rmdir", p)] if isdir else [fs("unlink", p)]) + [drain(w)]
+        steps += [fs("mkdir", p), fs("create", inner)] if isdir else [fs("create", p)]
+        steps += [fs("write", inner), drain(w)]
+    steps += [call(w, "watchlist"), obs(w), call(w, "remove", p, sp), drain(w), call(w, "add", p, sp), fs("chmod", inner), drain(w), call(w, "watchlist"), obs(w)]
     steps += epilogue(w)
     return steps
 
@@ -1529,7 +1609,7 @@ FAMS = {
     "cycle": fam_cycle, "newclose": fam_newclose, "overflow": fam_overflow, "moves": fam_moves, "multi": fam_multi,
     "absorb": fam_absorb, "withops": fam_withops, "repoint": fam_repoint, "stall": fam_stall, "spell": fam_spell,
     "endwatch": fam_endwatch, "paced": fam_paced, "ovfstall": fam_ovfstall, "ovflate": fam_ovflate,
-    "parmoves": fam_parmoves, "multix": fam_multix, "recurse": fam_recurse, "cwd": fam_cwd, "readfault": fam_readfault, "dselfskip": fam_dselfskip, "wlpark": fam_wlpark, "recerr": fam_recerr,
+    "parmoves": fam_parmoves, "multix": fam_multix, "recurse": fam_recurse, "cwd": fam_cwd, "readfault": fam_readfault, "dselfskip": fam_dselfskip, "heldparent": fam_heldparent, "reops": fam_reops, "wlpark": fam_wlpark, "recerr": fam_recerr,
     "kqdir": fam_kqdir, "kqsym": fam_kqsym, "kqburst": fam_kqburst, "kqcycle": fam_kqcycle, "kqfault": fam_kqfault, "kqdot": fam_kqdot, "kqseq": fam_kqseq, "kqkfault": fam_kqkfault, "kqnested": fam_kqnested,
 }
 
